@@ -547,7 +547,7 @@ package gocql
 
 // what a query needs to be executed again for its next page: either pinned to a connection that is
 // ready for executeQuery, or belonging to a session with an executor
-//@ predicate conn_ready(c, q): c.session != nil && c.session.stmtsLRU != nil && c.host != nil && q.routingInfo != nil && plru_bound(c.session.stmtsLRU) && c.logger != nil
+//@ predicate conn_ready(c, q): conn_ok(c) && c.session != nil && c.session.stmtsLRU != nil && c.host != nil && q.routingInfo != nil && plru_bound(c.session.stmtsLRU) && c.logger != nil
 //@ predicate query_ready(q): q != nil && (q.conn != nil ==> conn_ready(q.conn, q)) && (q.conn == nil ==> q.session != nil && q.session.executor != nil && q.session.executor.policy != nil && q.session.executor.pool != nil)
 
 // an iterator with a follow-up page can fetch it: the page's query is executable, and a page that
@@ -648,13 +648,6 @@ package gocql
 // unexpected frame, or any parse result, must not crash them). Object invariants
 // of Conn/Session (configuration objects set by the constructors) are `requires`.
 // ---------------------------------------------------------------------------
-
-// exec is verified under C01/C06/C07; callers here need only: a returned framer carries the header read by recv.
-//@ func (c *Conn) exec
-//@   props C05
-//@   trusted contract used by the startup / heartbeat callers (proved separately: C01/C06)
-//@   modifies nothing
-//@   ensures result1 == nil ==> result0 != nil && result0.header != nil
 
 //@ func (s *startupCoordinator) write
 //@   props C05 C20
@@ -1444,12 +1437,15 @@ package gocql
 // every entry of the calls table is a call waiting under its own stream id, with its channels
 //@ predicate calls_wf(c): forall(s, haskey(c.calls, s) ==> c.calls[s] != nil && c.calls[s].streamID == s && c.calls[s].resp != nil && c.calls[s].timeout != nil && 1 <= s && s < c.streams.NumStreams)
 
+// object invariant of a connection in service
+//@ predicate conn_ok(c): streams_wf(c.streams) && c.w != nil && c.ctx != nil && (!c.closed ==> c.calls != nil && calls_wf(c)) && c.errorHandler != nil && c.cancel != nil && c.conn != nil
+
 //@ func (c *Conn) addCall
 //@   props C01 C06
 //@   requires call != nil && call.resp != nil && call.timeout != nil && c.streams != nil && 1 <= call.streamID && call.streamID < c.streams.NumStreams
-//@   requires calls_wf(c) && (!c.closed ==> c.calls != nil)
+//@   requires !c.closed ==> c.calls != nil && calls_wf(c)
 //@   assume ErrConnectionClosed != nil
-//@   ensures calls_wf(c) && (!c.closed ==> c.calls != nil)
+//@   ensures !c.closed ==> c.calls != nil && calls_wf(c)
 // registered under its own stream id, only when the connection is open and nobody waits there
 //@   ensures result == nil ==> !old(c.closed) && (!old(haskey(c.calls, call.streamID)) || old(c.calls[call.streamID]) == nil) && haskey(c.calls, call.streamID) && c.calls[call.streamID] == call && map_unchanged_except(c.calls, call.streamID)
 //@   ensures result != nil ==> map_unchanged_except(c.calls)
@@ -1461,26 +1457,27 @@ package gocql
 //@ func (recv StreamObserverContext) StreamFinished
 //@   interface
 //@   trusted observers only observe
-//@   preserves_types Conn callReq IDGenerator Session framer
+//@   preserves_types Conn callReq IDGenerator Session framer preparedLRU Cache inflightPrepare Query List Element HostInfo startupCoordinator
 
 //@ func (recv StreamObserverContext) StreamAbandoned
 //@   interface
 //@   trusted observers only observe
-//@   preserves_types Conn callReq IDGenerator Session framer
+//@   preserves_types Conn callReq IDGenerator Session framer preparedLRU Cache inflightPrepare Query List Element HostInfo startupCoordinator
 
 //@ func (recv StreamObserverContext) StreamStarted
 //@   interface
 //@   trusted observers only observe
-//@   preserves_types Conn callReq IDGenerator Session framer
+//@   preserves_types Conn callReq IDGenerator Session framer preparedLRU Cache inflightPrepare Query List Element HostInfo startupCoordinator
 
 //@ func (recv StreamObserver) StreamContext
 //@   interface
 //@   trusted observers only observe
-//@   preserves_types Conn callReq IDGenerator Session framer
+//@   preserves_types Conn callReq IDGenerator Session framer preparedLRU Cache inflightPrepare Query List Element HostInfo startupCoordinator
 
 // releasing: the call's own stream id goes back to the allocator, once
 //@ func (c *Conn) releaseStream
 //@   props C06 C01
+//@   preserves_types framer Conn frameHeader
 //@   count_calls Clear
 //@   requires call != nil && streams_wf(c.streams) && 1 <= call.streamID && call.streamID < c.streams.NumStreams
 //@   before Clear: arg0 == c.streams && arg1 == call.streamID
@@ -1505,13 +1502,97 @@ package gocql
 //@   props C01 C06
 //@   count_calls readFrame discardFrame releaseStream
 //@   requires c.conn != nil && c.r != nil && streams_wf(c.streams) && c.logger != nil && c.session != nil && ctx != nil
-//@   requires calls_wf(c) && (!c.closed ==> c.calls != nil)
+//@   requires !c.closed ==> c.calls != nil && calls_wf(c)
 //@   assume ErrConnectionClosed != nil
-//@   before_send[C01] ch == call.resp && old(haskey(c.calls, head.stream)) && call == old(c.calls[head.stream]) && call.streamID == head.stream && val.framer == framer && val.err == err && releaseStream_calls == 0
-//@   before[C01] releaseStream: arg0 == c && arg1 == call && call == old(c.calls[head.stream]) && old(haskey(c.calls, head.stream))
-//@   ensures calls_wf(c) && c.streams == old(c.streams) && releaseStream_calls <= 1
+//@   before_send[C01] ch == call.resp && old(haskey(c.calls, head.stream)) && call == old(c.calls[head.stream]) && call.streamID == head.stream && val.framer == framer && val.err == err && releaseStream_calls == 0 && (val.err == nil ==> val.framer != nil && val.framer.header != nil)
+//@   before[C01] releaseStream: arg0 == c && arg1 == call && call == old(c.calls[head.stream]) && old(haskey(c.calls, head.stream)) && sent(call.resp) == 0
+//@   ensures (!c.closed ==> calls_wf(c)) && c.streams == old(c.streams) && releaseStream_calls <= 1 && c.closed == old(c.closed)
 //@   at_return[C01] call != nil ==> !haskey(c.calls, head.stream) && map_unchanged_except(c.calls, head.stream) && call == old(c.calls[head.stream])
 //@   at_return[C01] discardFrame_calls == 1 ==> !old(haskey(c.calls, head.stream)) || old(c.calls[head.stream]) == nil
+
+//@ func (recv ConnErrorHandler) HandleError
+//@   interface
+//@   trusted the pool's error handler drops the connection from its pool; it does not write the connection's own fields
+//@   preserves_types Conn callReq IDGenerator framer startupCoordinator preparedLRU Cache inflightPrepare Query Session List Element HostInfo
+
+//@ func (recv frameBuilder) buildFrame
+//@   interface
+//@   trusted request frames write into the framer they are given (their content is C03)
+//@   preserves_types Conn callReq IDGenerator startupCoordinator Session preparedLRU Cache inflightPrepare Query List Element HostInfo
+
+//@ func (recv contextWriter) writeContext
+//@   interface
+//@   trusted writes the bytes to the socket (C07)
+//@   preserves_types Conn callReq IDGenerator framer startupCoordinator Session preparedLRU Cache inflightPrepare Query List Element HostInfo
+//@   ensures 0 <= result0 && result0 <= len(p)
+
+//@ func (recv net.Conn) Close
+//@   interface
+//@   trusted closing the socket does not write driver objects
+//@   preserves_types Conn callReq IDGenerator framer startupCoordinator preparedLRU Cache inflightPrepare Query Session List Element HostInfo
+
+//@ func NewErrProtocol
+//@   props C01
+//@   modifies nothing
+//@   ensures result != nil
+
+//@ func (c *Conn) handleTimeout
+//@   trusted counts the timeout and closes the connection when the configured limit is exceeded
+//@   requires conn_ok(c)
+//@   ensures conn_ok(c)
+//@   preserves_types callReq IDGenerator framer startupCoordinator Session preparedLRU Cache inflightPrepare Query List Element HostInfo
+//@   ensures c.streams == old(c.streams) && c.cfg == old(c.cfg) && c.compressor == old(c.compressor) && c.session == old(c.session) && c.host == old(c.host) && c.version == old(c.version) && c.logger == old(c.logger)
+
+// closing: every call still waiting gets the error on its own channel (or has given up), nothing else
+//@ func (c *Conn) closeWithError
+//@   props C06 C01
+//@   nil_receiver_ok
+//@   requires c != nil ==> conn_ok(c)
+//@   ensures c != nil ==> conn_ok(c)
+//@   before_send[C01] ch == req.resp && val.err == err && err != nil && val.framer == nil
+//@   ensures c != nil ==> c.closed && c.streams == old(c.streams) && c.cfg == old(c.cfg) && c.compressor == old(c.compressor) && c.session == old(c.session) && c.host == old(c.host) && c.version == old(c.version) && c.logger == old(c.logger)
+//@   ensures c != nil && !old(c.closed) && err != nil ==> c.calls == nil
+//@   preserves_types IDGenerator framer startupCoordinator preparedLRU Cache inflightPrepare Query Session List Element HostInfo
+//@   loop 0: invariant c.closed && c.streams == old(c.streams) && c.cfg == old(c.cfg) && c.compressor == old(c.compressor) && c.session == old(c.session) && c.host == old(c.host) && c.version == old(c.version) && c.logger == old(c.logger) && c.errorHandler == old(c.errorHandler) && c.cancel != nil && c.conn != nil && (err != nil ==> c.calls == nil)
+//@   loop 0: invariant forall(s, haskey(callsToClose, s) ==> callsToClose[s] != nil && callsToClose[s].resp != nil && callsToClose[s].timeout != nil)
+
+// One request on the connection. C01: the call is registered, fresh, under the stream id just taken from
+// the allocator, the frame is built for that id, and what is returned is the frame received on this call's
+// own channel. C06: on every path after registration the timeout channel is closed (nobody is left blocked
+// on this call); the stream goes back to the allocator at most once, and only when no response can
+// arrive any more - the frame was never written, or its response has been received; after a timeout,
+// a cancellation or a failed write it stays reserved (recv releases it when the late response arrives).
+//@ func (c *Conn) exec
+//@   props C01 C06 C05 C07
+//@   count_calls GetStream addCall releaseStream closeWithError writeContext buildFrame handleTimeout Err
+//@   requires ctx != nil && req != nil && conn_ok(c)
+//@   ensures conn_ok(c)
+//@   assume ErrNoStreams != nil && ErrTimeoutNoResponse != nil && ErrConnectionClosed != nil
+//@   assume_recv ch == call.resp ==> (val.err == nil ==> val.framer != nil && val.framer.header != nil)
+// context.Context: after Done() has fired Err() is not nil
+//@   assume_after Err: selrecvd(ctxDone) >= 1 ==> Err_ret0 != nil
+// observers, the request builder and the socket writer have no access to the calls table
+//@   stable_across StreamContext: c.calls
+//@   stable_across StreamStarted: c.calls
+//@   stable_across buildFrame: c.calls
+//@   stable_across writeContext: c.calls
+//@   before[C01] addCall: arg0 == c && GetStream_calls == 1 && GetStream_ret1 && arg1.streamID == GetStream_ret0 && fresh(arg1) && fresh(arg1.resp) && fresh(arg1.timeout)
+//@   before[C01] buildFrame: arg1 == GetStream_ret0 && addCall_calls == 1 && addCall_ret0 == nil
+//@   before[C07] writeContext: same(arg1, framer.buf) && buildFrame_calls == 1 && buildFrame_ret0 == nil
+//@   before[C06] releaseStream: arg0 == c && arg1 == call && releaseStream_calls == 1 && (writeContext_calls == 0 || (writeContext_ret1 != nil && writeContext_ret0 == 0) || selrecvd(call.resp) == 1)
+//@   before[C06] closeWithError: writeContext_calls == 1 && writeContext_ret1 != nil
+//@   ensures releaseStream_calls <= 1 && GetStream_calls <= 1 && addCall_calls <= 1 && writeContext_calls <= 1
+//@   ensures result1 == nil ==> result0 != nil && result0.header != nil
+//@   ensures c.streams == old(c.streams)
+//@   ensures c.cfg == old(c.cfg)
+//@   ensures c.compressor == old(c.compressor)
+//@   ensures c.session == old(c.session) && c.host == old(c.host)
+//@   ensures c.version == old(c.version) && c.logger == old(c.logger)
+//@   preserves_types startupCoordinator Session preparedLRU Cache inflightPrepare Query List Element HostInfo
+//@   at_return[C01] result1 == nil ==> selrecvd(call.resp) == 1 && result0 == resp.framer && releaseStream_calls == 1
+//@   at_return[C06] addCall_calls == 1 && addCall_ret0 == nil ==> closed(call.timeout)
+//@   at_return[C06] writeContext_calls == 1 && writeContext_ret1 == nil && selrecvd(call.resp) == 0 ==> releaseStream_calls == 0
+//@   at_return[C06] writeContext_calls == 1 && writeContext_ret1 != nil && writeContext_ret0 != 0 ==> releaseStream_calls == 0 && closeWithError_calls == 1
 
 // ---------------------------------------------------------------------------
 // prepared statements (C14): prepared_cache.go, conn.go prepareStatement / executeQuery
@@ -1557,6 +1638,7 @@ package gocql
 // entry before it signals completion).
 //@ func (p *preparedLRU) evictPreparedID
 //@   props C14
+//@   preserves_types Conn callReq IDGenerator Session HostInfo Query framer
 //@   count_calls Get Remove Equal
 //@   requires p.lru != nil && plru_bound(p)
 //@   assume_after Get: Get_ret1 && typeis(Get_ret0, *inflightPrepare) ==> unbox(Get_ret0, *inflightPrepare) != nil && unbox(Get_ret0, *inflightPrepare).done != nil && unbox(Get_ret0, *inflightPrepare).preparedStatment != nil
@@ -1567,7 +1649,7 @@ package gocql
 //@ func (recv Tracer) Trace
 //@   interface
 //@   trusted a tracer reads the trace tables; it does not write connection, session or statement-cache state
-//@   preserves_types Conn Session preparedLRU inflightPrepare preparedStatment Cache List Element framer Query
+//@   preserves_types Conn Session preparedLRU inflightPrepare preparedStatment Cache List Element framer Query callReq IDGenerator HostInfo
 
 //@ func (p *preparedLRU) keyFor
 //@   props C14
@@ -1587,7 +1669,8 @@ package gocql
 //@ func (c *Conn) prepareStatement
 //@   props C14
 //@   count_calls keyFor execIfMissing go
-//@   requires c.session != nil && c.session.stmtsLRU != nil && c.host != nil && ctx != nil && plru_bound(c.session.stmtsLRU)
+//@   requires c.session != nil && c.session.stmtsLRU != nil && c.host != nil && ctx != nil && plru_bound(c.session.stmtsLRU) && conn_ok(c)
+//@   ensures conn_ok(c)
 //@   before keyFor: same(arg1, c.host.hostId) && same(arg2, c.currentKeyspace) && same(arg3, stmt)
 //@   before execIfMissing: keyFor_calls == 1 && same(arg1, keyFor_ret0)
 //@   assume_after execIfMissing: !execIfMissing_ret1 ==> execIfMissing_ret0 != nil && execIfMissing_ret0.done != nil && execIfMissing_ret0.err == nil && execIfMissing_ret0.preparedStatment == nil
@@ -1596,7 +1679,8 @@ package gocql
 // what a waiter reads after the entry's completion is what the winner's goroutine (prepareStatement$2,
 // proved) left there: a statement whose bind metadata has one column specification per marker, or an error
 //@   ensures_assumed result1 == nil ==> result0 != nil && result0.request.actualColCount == len(result0.request.columns) && result0.request.actualColCount >= 0
-//@   ensures c.session == old(c.session) && c.session.stmtsLRU == old(c.session.stmtsLRU) && c.host == old(c.host)
+//@   ensures c.session == old(c.session) && c.session.stmtsLRU == old(c.session.stmtsLRU) && c.host == old(c.host) && c.logger == old(c.logger)
+//@   preserves_types Query
 //@   ensures plru_bound(c.session.stmtsLRU)
 
 // the creator run under the cache lock on a miss: a fresh in-flight entry, published under the key
@@ -1614,7 +1698,7 @@ package gocql
 //@ func (c *Conn) prepareStatement$2
 //@   props C14
 //@   count_calls exec parseFrame preparedLRU.remove
-//@   requires *c != nil && (*c).session != nil && (*c).session.stmtsLRU != nil && *flight != nil && (*flight).done != nil && plru_bound((*c).session.stmtsLRU)
+//@   requires *c != nil && (*c).session != nil && (*c).session.stmtsLRU != nil && *flight != nil && (*flight).done != nil && plru_bound((*c).session.stmtsLRU) && conn_ok(*c) && (*c).ctx != nil
 //@   requires (*flight).err == nil && (*flight).preparedStatment == nil
 //@   before exec: arg1 == (*c).ctx
 //@   before preparedLRU.remove: same(arg1, *stmtCacheKey)
@@ -1625,7 +1709,7 @@ package gocql
 
 //@ func (c *Conn) awaitSchemaAgreement
 //@   trusted polls the schema version tables on this connection; does not touch the connection object's fields
-//@   preserves_types Conn Session preparedLRU Cache List Query
+//@   preserves_types Conn Session preparedLRU Cache List Element Query callReq IDGenerator HostInfo inflightPrepare
 
 //@ func (q *Query) shouldPrepare
 //@   props C14
@@ -1653,7 +1737,11 @@ package gocql
 //@ func (c *Conn) executeQuery
 //@   props C14 C15
 //@   count_calls prepareStatement exec evictPreparedID executeQuery marshalQueryValue keyFor
-//@   requires qry != nil && ctx != nil && c.session != nil && c.session.stmtsLRU != nil && c.host != nil && qry.routingInfo != nil && plru_bound(c.session.stmtsLRU) && c.logger != nil
+//@   requires qry != nil && ctx != nil && c.session != nil && c.session.stmtsLRU != nil && c.host != nil && qry.routingInfo != nil && plru_bound(c.session.stmtsLRU) && c.logger != nil && conn_ok(c)
+// tracers, the schema-agreement poll and the user's binding callback have no access to the calls table
+//@   stable_across Trace: c.calls
+//@   stable_across awaitSchemaAgreement: c.calls
+//@   stable_across evictPreparedID: c.calls
 //@   before prepareStatement: arg0 == c && same(arg2, qry.stmt)
 //@   before[@exec] exec: typeis(arg2, *writeExecuteFrame) ==> prepareStatement_calls == 1 && prepareStatement_ret1 == nil && same(unbox(arg2, *writeExecuteFrame).preparedID, prepareStatement_ret0.id) && len(unbox(arg2, *writeExecuteFrame).params.values) == prepareStatement_ret0.request.actualColCount && marshalQueryValue_calls == prepareStatement_ret0.request.actualColCount
 //@   before exec: typeis(arg2, *writeQueryFrame) ==> prepareStatement_calls == 0 && same(unbox(arg2, *writeQueryFrame).statement, qry.stmt)
@@ -1682,6 +1770,7 @@ package gocql
 //@   ensures executeQuery_calls == 0 ==> exec_calls <= 1
 //@   ensures evictPreparedID_calls == executeQuery_calls
 //@   loop 0: invariant 0 <= i && i <= len(values) && len(params.values) == len(values) && len(values) == info.request.actualColCount && info.request.actualColCount == len(info.request.columns) && marshalQueryValue_calls == i && prepareStatement_calls == 1 && prepareStatement_ret1 == nil && prepareStatement_ret0 == info && exec_calls == 0 && executeQuery_calls == 0 && evictPreparedID_calls == 0
+//@   loop 0: invariant conn_ok(c) && plru_bound(c.session.stmtsLRU) && c.session != nil && c.session.stmtsLRU != nil && c.host != nil && c.logger != nil && qry.routingInfo != nil
 
 //@ func (b *Batch) Context
 //@   props C14
@@ -1695,20 +1784,23 @@ package gocql
 //@ func (c *Conn) executeBatch
 //@   props C14
 //@   count_calls prepareStatement exec evictPreparedID executeBatch marshalQueryValue
-//@   requires batch != nil && ctx != nil && c.session != nil && c.session.stmtsLRU != nil && c.host != nil && plru_bound(c.session.stmtsLRU)
+//@   requires batch != nil && ctx != nil && c.session != nil && c.session.stmtsLRU != nil && c.host != nil && plru_bound(c.session.stmtsLRU) && conn_ok(c)
 //@   requires forall(k, 0 <= k && k < len(batch.Entries), true)
+//@   stable_across Trace: c.calls
+//@   stable_across evictPreparedID: c.calls
 //@   before prepareStatement: arg0 == c && same(arg2, entry.Stmt)
 //@   before exec: typeis(arg2, *writeBatchFrame) && unbox(arg2, *writeBatchFrame) == req
 //@   before evictPreparedID: typeis(resp, *RequestErrUnprepared) && same(arg2, unbox(resp, *RequestErrUnprepared).StatementId)
 //@   before executeBatch: arg0 == c && arg2 == batch
 //@   ensures result != nil
 //@   ensures executeBatch_calls == 0 ==> exec_calls <= 1
-//@   loop 0: invariant 0 <= i && i <= n && n == len(batch.Entries) && len(req.statements) == n && req != nil && fresh(req) && stmts != nil && exec_calls == 0 && executeBatch_calls == 0 && evictPreparedID_calls == 0 && plru_bound(c.session.stmtsLRU) && c.session != nil && c.session.stmtsLRU != nil && c.host != nil
+//@   loop 0: invariant 0 <= i && i <= n && n == len(batch.Entries) && len(req.statements) == n && req != nil && fresh(req) && stmts != nil && exec_calls == 0 && executeBatch_calls == 0 && evictPreparedID_calls == 0 && plru_bound(c.session.stmtsLRU) && c.session != nil && c.session.stmtsLRU != nil && c.host != nil && conn_ok(c)
 //@   loop 0: invariant forall(k, i <= k && k < n, len(req.statements[k].preparedID) == 0)
 // prepared slots processed so far carry an id and as many values as their statement has markers
 //@   loop 0: step prev(prepareStatement_calls) + 1 == prepareStatement_calls ==> prepareStatement_ret1 == nil && same(req.statements[prev(i)].preparedID, prepareStatement_ret0.id) && len(req.statements[prev(i)].values) == prepareStatement_ret0.request.actualColCount
 //@   loop 0: step prev(prepareStatement_calls) == prepareStatement_calls ==> same(req.statements[prev(i)].statement, batch.Entries[prev(i)].Stmt)
 //@   loop 0: step prev(prepareStatement_calls) == prepareStatement_calls ==> len(req.statements[prev(i)].preparedID) == 0
+//@   loop 1: invariant conn_ok(c) && plru_bound(c.session.stmtsLRU) && c.session != nil && c.session.stmtsLRU != nil && c.host != nil
 //@   loop 1: invariant 0 <= j && j <= info.request.actualColCount && len(b.values) == info.request.actualColCount && len(values) == info.request.actualColCount && info.request.actualColCount == len(info.request.columns) && exec_calls == 0 && executeBatch_calls == 0 && evictPreparedID_calls == 0
 
 // ---------------------------------------------------------------------------
@@ -1856,7 +1948,7 @@ package gocql
 //@   requires smt("bool", "(and (not (= $1 $2)) (not (= $1 $3)))", s.pool.hostConnPools, s.ring.hosts, s.ring.hostIPToUUID)
 // a policy has no access to the ring's and the pool's maps
 //@   stable_across HostSelectionPolicy.RemoveHost: s.ring.hosts, s.ring.hostIPToUUID, s.ring.hostList, s.pool.hostConnPools
-//@   before HostSelectionPolicy.RemoveHost: arg1 == h
+//@   before HostSelectionPolicy.RemoveHost: arg0 == h
 //@   before policyConnPool.removeHost: arg0 == s.pool && arg1 == h.hostId
 //@   before ring.removeHost: arg1 == h.hostId
 //@   ensures HostSelectionPolicy_RemoveHost_calls == 1 && policyConnPool_removeHost_calls == 1 && ring_removeHost_calls == 1
@@ -1888,7 +1980,7 @@ package gocql
 // pools in the map are non-nil (addHost stores the pool it creates)
 //@   assume forall(string(id), haskey(s.pool.hostConnPools, id) ==> s.pool.hostConnPools[id] != nil)
 //@   before setState: ring_getHostByIP_calls == 1 && arg0 == ring_getHostByIP_ret0 && arg1 == NodeDown
-//@   before HostSelectionPolicy.HostDown: arg1 == ring_getHostByIP_ret0
+//@   before HostSelectionPolicy.HostDown: arg0 == ring_getHostByIP_ret0
 //@   before policyConnPool.removeHost: arg0 == s.pool && arg1 == ring_getHostByIP_ret0.hostId
 //@   stable_across HostSelectionPolicy.HostDown: s.pool.hostConnPools
 //@   ensures ring_getHostByIP_calls == 1
@@ -1910,7 +2002,7 @@ package gocql
 //@   stable_across policyConnPool.addHost: s.ring.hosts, s.ring.hostIPToUUID, s.ring.hostList
 //@   stable_across HostSelectionPolicy.AddHost: s.ring.hosts, s.ring.hostIPToUUID, s.ring.hostList, s.pool.hostConnPools
 //@   before policyConnPool.addHost: arg0 == s.pool && arg1 == host
-//@   before HostSelectionPolicy.AddHost: arg1 == host
+//@   before HostSelectionPolicy.AddHost: arg0 == host
 //@   ensures policyConnPool_addHost_calls == 1 && HostSelectionPolicy_AddHost_calls == 1
 
 //@ func (h *HostInfo) Version
@@ -1940,7 +2032,7 @@ package gocql
 //@   count_calls setState HostSelectionPolicy.HostUp filterHost
 //@   requires s.policy != nil && host != nil
 //@   before setState: arg0 == host && arg1 == NodeUp
-//@   before HostSelectionPolicy.HostUp: arg1 == host
+//@   before HostSelectionPolicy.HostUp: arg0 == host
 //@   ensures setState_calls == 1 && filterHost_calls == 1 && (HostSelectionPolicy_HostUp_calls == 1) == !filterHost_ret0 && HostSelectionPolicy_HostUp_calls <= 1
 
 // Event batches: any topology event asks for one ring refresh; status events are coalesced per
